@@ -567,6 +567,11 @@ func Select(a, i *Term) *Term {
 				a = a.Args[0]
 				continue
 			}
+			if (i.IsInt() && i.Int.Sign() >= 0 && notGlobalRef[j]) || (j.IsInt() && j.Int.Sign() >= 0 && notGlobalRef[i]) {
+				// the cell of a captured local variable is not a package-level object
+				a = a.Args[0]
+				continue
+			}
 			if offsetDistinct(i, j) {
 				// two references below the same water mark at different offsets
 				a = a.Args[0]
@@ -1319,6 +1324,9 @@ func initImageLookup(a, i *Term) *Term {
 }
 
 // offsetDistinct: i and j are  X - c1  and  X - c2  (or X itself, c = 0) for the same X and different literals.
+// notGlobalRef: references of cells that hold locals of an enclosing function (closure bindings).
+var notGlobalRef = map[*Term]bool{}
+
 func offsetDistinct(i, j *Term) bool {
 	split := func(t *Term) (*Term, *big.Int) {
 		if t.Op == "-" && len(t.Args) == 2 && t.Args[1].IsInt() {
